@@ -413,6 +413,10 @@ type gnode struct {
 
 type groupErr []error
 
+// gSharedErr: failing resolvers return the shared sentinel below instead of a fresh error (set per case by C06)
+var gSharedErr bool
+var gSentinelErr = &ggql.Error{Base: fmt.Errorf("boom")}
+
 func (n *gnode) Resolve(f *ggql.Field, args map[string]interface{}) (interface{}, error) {
 	*n.w.calls = append(*n.w.calls, N("call", I(int64(n.idx)), S(f.Name)))
 	fr := n.w.g.nodes[n.idx].fields[f.Name]
@@ -420,7 +424,10 @@ func (n *gnode) Resolve(f *ggql.Field, args map[string]interface{}) (interface{}
 		return nil, nil
 	}
 	var err error
-	if fr.errs == 1 {
+	if fr.errs == 1 && gSharedErr {
+		// one *ggql.Error value returned by every failing invocation, as an application's sentinel error is
+		err = gSentinelErr
+	} else if fr.errs == 1 {
 		err = fmt.Errorf("boom")
 	} else if fr.errs > 1 {
 		var es ggql.Errors
